@@ -3,6 +3,7 @@ package main
 // Evaluation of contract expressions to symbolic values in a given state.
 
 import (
+	"regexp"
 	"sync"
 	"fmt"
 	"go/constant"
@@ -707,6 +708,8 @@ func (x *Exec) evalCall(env *Env, e *Expr) Value {
 				return Scalar{v.Len, tyInt}
 			case StringV:
 				return Scalar{v.Len, tyInt}
+			case nil:
+				return Scalar{st.A.Idx(0), tyInt}
 			}
 			x.fail("len of non-slice in %s", e)
 		case "cap":
@@ -777,6 +780,52 @@ func (x *Exec) evalCall(env *Env, e *Expr) Value {
 				x.fail("unknown type in typeIs: %s", e)
 			}
 			return Scalar{And(Neq(v.T, IntC(0)), Eq(App("dyntype", SInt, v.T), IntC(x.typeTag(ty)))), tyBool}
+		case "hasMethods":
+			// hasMethods(e, "interface{Code() uint64}"): e is non-nil and its dynamic type implements the interface
+			v := x.asScalar(x.eval(env, args[0]), e)
+			x.registerIface(st, args[1].Name)
+			return Scalar{And(Neq(v.T, IntC(0)), App("implements$"+args[1].Name, SBool, App("dyntype", SInt, v.T))), tyBool}
+		case "methodU64", "methodErr", "methodStr", "methodBool":
+			v := x.asScalar(x.eval(env, args[0]), e)
+			var rt types.Type
+			switch fn.Name {
+			case "methodU64":
+				rt = tyUint64
+			case "methodErr":
+				rt = types.Universe.Lookup("error").Type()
+			case "methodStr":
+				rt = tyString
+			default:
+				rt = tyBool
+			}
+			return x.pureMethodResult(st, v.T, args[1].Name, rt)
+		case "eventAfterLast":
+			// eventAfterLast("a", "b"): on this path, after the last event with prefix a there is an
+			// event with prefix b (vacuously true if a never happened). Events are concrete per path.
+			a, b := args[0].Name, args[1].Name
+			last := -1
+			for i, ev := range env.St.Events {
+				if strings.HasPrefix(ev, a) {
+					last = i
+				}
+			}
+			if last < 0 {
+				return Scalar{TTrue, tyBool}
+			}
+			for _, ev := range env.St.Events[last+1:] {
+				if strings.HasPrefix(ev, b) {
+					return Scalar{TTrue, tyBool}
+				}
+			}
+			return Scalar{TFalse, tyBool}
+		case "eventCount":
+			n := int64(0)
+			for _, ev := range env.St.Events {
+				if strings.HasPrefix(ev, args[0].Name) {
+					n++
+				}
+			}
+			return ConstV{V: big.NewInt(n)}
 		case "closed":
 			v := x.asScalar(x.eval(env, args[0]), e)
 			return st.heapLoad(v.T, "chan", tyBool)
@@ -1016,6 +1065,8 @@ func termSize(t *Term, limit int) int {
 	return n
 }
 
+var methodNameRe = regexp.MustCompile(`(\w+)\(`)
+
 var quantVarMemo sync.Map
 
 // specDefTerms registers the defining equations of named spec results (see nameSpecResult).
@@ -1105,4 +1156,39 @@ func containsOp(t *Term, op string) bool {
 		return false
 	}
 	return rec(t)
+}
+
+// registerIface records an interface (by its type text) whose implementation by concrete types is
+// decided statically; facts are assumed for every concrete type boxed so far and at later boxings.
+func (x *Exec) registerIface(st *State, text string) {
+	if x.ifaceTexts == nil {
+		x.ifaceTexts = map[string][]string{}
+	}
+	if _, ok := x.ifaceTexts[text]; !ok {
+		var names []string
+		for _, w := range methodNameRe.FindAllStringSubmatch(text, -1) {
+			names = append(names, w[1])
+		}
+		x.ifaceTexts[text] = names
+	}
+	for _, ct := range x.boxedTypes {
+		x.assumeImplements(st, text, ct)
+	}
+}
+
+func (x *Exec) assumeImplements(st *State, text string, ct types.Type) {
+	ms := x.P.SSA.MethodSets.MethodSet(ct)
+	all := true
+	for _, w := range x.ifaceTexts[text] {
+		found := false
+		for i := 0; i < ms.Len(); i++ {
+			if ms.At(i).Obj().Name() == w {
+				found = true
+			}
+		}
+		if !found {
+			all = false
+		}
+	}
+	st.Assume(Eq(App("implements$"+text, SBool, IntC(x.typeTag(ct))), Bool(all)))
 }
